@@ -76,7 +76,7 @@ partial def loop (inp out : IO.FS.Stream) (s : St) : IO Unit := do
     let fs := facts
     let badFacts := [("initStoresNew", fs.initStoresNew), ("freeDeletesTyped", fs.freeDeletesTyped), ("freeResetsHandle", fs.freeResetsHandle),
       ("readFileFreesOccupied", fs.readFileFreesOccupied), ("readFileStoresNew", fs.readFileStoresNew), ("readMemAllocsOnlyIfNull", fs.readMemAllocsOnlyIfNull),
-      ("gridevalReleasesResult", fs.gridevalReleasesResult), ("destroyDeletesDerived", fs.destroyDeletesDerived),
+      ("gridevalReleasesResult", fs.gridevalReleasesResult), ("gridevalClearsResult", fs.gridevalClearsResult), ("destroyDeletesDerived", fs.destroyDeletesDerived),
       ("writeMemHandsOverBuffer", fs.writeMemHandsOverBuffer)].filter (fun p => !p.2) |>.map (·.1)
     out.putStrLn s!"C wrappers={wrappers.length} bad=[{",".intercalate bad}] badfacts=[{",".intercalate badFacts}]"
     loop inp out s
